@@ -807,17 +807,18 @@ func (s *state) match(route, verb string) (*method, params, error) {
 // ServeHTTP implements http.Handler.
 // It supports both gRPC and HTTP requests.
 func (m *Mux) ServeHTTP(w http.ResponseWriter, r *http.Request) {
-	if r.ProtoMajor == 2 && strings.HasPrefix(
-		r.Header.Get("Content-Type"), "application/grpc",
-	) {
-		m.serveGRPC(w, r)
-		return
-	}
-
+	// gRPC-web first: its content types start with "application/grpc" too.
 	if strings.HasPrefix(
 		r.Header.Get("Content-Type"), "application/grpc-web",
 	) {
 		m.serveGRPCWeb(w, r)
+		return
+	}
+
+	if r.ProtoMajor == 2 && strings.HasPrefix(
+		r.Header.Get("Content-Type"), "application/grpc",
+	) {
+		m.serveGRPC(w, r)
 		return
 	}
 
